@@ -8,6 +8,8 @@ namespace QF.Props.C15
 -- `QFrame.ToCSV`, `QFrame.ToJSON`: `Gen.toCsvAst` / `Gen.toJsonAst` (wast.go) + `Gen.guardAst2`, `C13WriterGen.gen_tocsv_canon` + `gen_tocsv_error`, `C14WriterGen.gen_tojson_canon` + `gen_tojson_fault`,
 -- `C10Guards.gen_guards2_canon`. `eofReaderWrapper.Read`, `bufferedReader.more`: `Gen.csvFns`, `C12CsvCanon.gen_csv_canon` + `C12CsvGen.gen_csv_wrapRead` / `gen_csv_more`.
 -- ToSQL is regenerated in `Gen.toSqlAst` (C19SqlWriteGen.gen_tosql_fault), ReadCSV's glue in `Gen.readCsvAst` (C12GlueGen.gen_csvglue_faults), ReadSQL in `Gen.readSqlAst` (C19ReadSqlGen.gen_readsql_faults).
-theorem tie : Tie.sameAll ["qframe.ReadSQLWithArgs"] = true := by decide
+-- `ReadSQLWithArgs` is regenerated statement by statement in `Gen.readSqlArgsAst` (sortgast.go: config → `Prepare(conf.Query)` → `defer Close` → `Query(queryArgs...)` →
+-- `qfsqlio.ReadSQL` → `New(data, ColumnOrder(columns...))`, every failure returned as `QFrame{Err: err}`): `C03SortGlueGen.gen_sortglue_canon` + `gen_readsqlargs_semantics` / `gen_readsqlargs_faults`.
+theorem tie : Tie.sameAll [] = true := by decide
 
 end QF.Props.C15
